@@ -72,7 +72,20 @@ fn worker(args: &[String]) -> i32 {
     sqverif::run::silence_stdout();
     let known = ctx::load_known(&verif_root());
     let mut c = Ctx::new(&id, tier, seed, worker, workers, known);
-    (spec.run)(&mut c);
+    let r = std::panic::catch_unwind(std::panic::AssertUnwindSafe(|| (spec.run)(&mut c)));
+    if r.is_err() {
+        let what = sqverif::run::take_last_panic().unwrap_or_else(|| "panic".into());
+        if what.contains("/repo/") {
+            // the code under test panicked while it was called directly (not inside the reader thread)
+            c.fail(
+                format!("the code under test panicked when called from the harness thread: {}", what),
+                "panic:direct_call",
+                serde_json::json!({"kind":"worker_panic","tier":tier.name(),"seed":seed,"worker":worker,"workers":workers}),
+            );
+        } else {
+            c.inconclusive(&format!("harness panic: {}", what));
+        }
+    }
     let o = c.finish();
     std::fs::write(&out, serde_json::to_vec(&o).unwrap()).expect("write worker output");
     0
@@ -353,6 +366,26 @@ fn replay(args: &[String]) -> i32 {
     let mut c = Ctx::new(&id, Tier::Quick, 0, 0, 1, known);
     c.strict = std::env::var("VERIF_REPLAY_STRICT").is_ok();
     let case = v.get("case").cloned().unwrap_or(Value::Null);
+    if case.get("kind").and_then(|k| k.as_str()) == Some("worker_panic") {
+        // re-run that worker's deterministic share in this process
+        let tier = parse_tier(case["tier"].as_str().map(|s| s.to_string()));
+        let mut c = Ctx::new(&id, tier, case["seed"].as_u64().unwrap_or(1), case["worker"].as_u64().unwrap_or(0) as u32, case["workers"].as_u64().unwrap_or(1) as u32, ctx::load_known(&verif_root()));
+        let saved = unsafe { libc::dup(1) };
+        sqverif::run::silence_stdout();
+        let r = std::panic::catch_unwind(std::panic::AssertUnwindSafe(|| (spec.run)(&mut c)));
+        unsafe {
+            libc::dup2(saved, 1);
+            libc::close(saved);
+        }
+        let what = sqverif::run::take_last_panic().unwrap_or_default();
+        if r.is_err() && what.contains("/repo/") {
+            println!("VIOLATION property={} replay={}", id, path);
+            println!("  detail: the code under test panicked when called from the harness thread: {}", what);
+            return 1;
+        }
+        println!("replay: property {} holds on this case", id);
+        return 0;
+    }
     // keep stdout clean while the code under test runs
     let saved = unsafe { libc::dup(1) };
     sqverif::run::silence_stdout();
